@@ -253,6 +253,21 @@ func (g *Gen) HeaderFor(r *FnResult) string {
 			b.WriteString(g.ufDecl[n] + "\n")
 		}
 	}
+	if facts := g.prefixDLiteralFacts(has); len(facts) > 0 {
+		for _, a := range facts {
+			b.WriteString(a + "\n")
+		}
+		if r != nil {
+			const note = "fmt.Sprintf(\"<prefix>%d\", k) equals the string literal \"<prefix>k\" for the literals a VC mentions (instances, k a canonical non-negative decimal)"
+			dup := false
+			for _, a := range r.Assumed {
+				dup = dup || a == note
+			}
+			if !dup {
+				r.Assumed = append(r.Assumed, note)
+			}
+		}
+	}
 	g.noteEpoch(0)
 	var eps []int
 	for e := range g.epochs {
